@@ -50,6 +50,10 @@ type c03Case struct {
 	// timeout), "close" (Close() 3ms after the write blocked), or a server
 	// failure kind for the first request, released once the write has blocked.
 	BlockThen string
+	// CancelLate: the contexts of the unbatched calls end 5 ms after they were
+	// submitted (requests written, replies delayed by 15 ms): a fatal answer
+	// then arrives for a call that has already given up
+	CancelLate bool
 }
 
 func (c c03Case) String() string {
@@ -67,6 +71,9 @@ func (c c03Case) String() string {
 	s := fmt.Sprintf("queue=%d flush=%v calls=%v fault=%v server=%s@%d extclose@%d slow=%s", c.Queue, c.Flush, cs, c.Fault, c.Server, c.ServerAt, c.ExtClose, c.Slow)
 	if c.BlockThen != "" {
 		s += " then=" + c.BlockThen
+	}
+	if c.CancelLate {
+		s += " unbatched-calls-give-up-before-the-answer"
 	}
 	return s
 }
@@ -131,8 +138,17 @@ func runC03Case(c *fw.Ctx, id string, cs c03Case) {
 	var fatalCall uint32
 	var fatalDone int32
 	cl.OnAction = func(req *sim.Request, a *sim.Action) *sim.Exc {
-		if atomic.LoadInt64(&fatalConn) == req.Conn.ID && atomic.LoadUint32(&fatalCall) == req.CallID && atomic.CompareAndSwapInt32(&fatalDone, 0, 1) {
-			return &sim.Exc{Class: sim.ExcStopped}
+		if atomic.LoadInt64(&fatalConn) == req.Conn.ID && atomic.LoadUint32(&fatalCall) == req.CallID {
+			// the first or (every other case) the last action of the request
+			last := a
+			for _, ra := range req.Multi {
+				if n := len(ra.Actions); n > 0 {
+					last = ra.Actions[n-1]
+				}
+			}
+			if (cs.Seed%2 == 0 || a == last) && atomic.CompareAndSwapInt32(&fatalDone, 0, 1) {
+				return &sim.Exc{Class: sim.ExcStopped}
+			}
 		}
 		return nil
 	}
@@ -187,6 +203,9 @@ func runC03Case(c *fw.Ctx, id string, cs c03Case) {
 		}
 		if rep != nil && cs.BlockThen != "" && !rep.Drop {
 			rep.Hold = blockHit // misbehave once the client's next write is stuck
+		}
+		if rep != nil && cs.CancelLate {
+			rep.Delay = 15 * time.Millisecond
 		}
 		return rep
 	}
@@ -314,6 +333,8 @@ func runC03Case(c *fw.Ctx, id string, cs c03Case) {
 	live := context.Background()
 	dead, cancelDead := context.WithCancel(context.Background())
 	cancelDead()
+	late, cancelLate := context.WithCancel(context.Background())
+	defer cancelLate()
 	var submitters sync.WaitGroup
 	submit := func(x c03Call, post bool) {
 		ctx := live
@@ -350,7 +371,11 @@ func runC03Case(c *fw.Ctx, id string, cs c03Case) {
 			submitters.Add(1)
 			go func() { defer submitters.Done(); rc.QueueRPC(call) }()
 		case "unbatched", "batchable":
-			t := track(ctx, x.Mode == "unbatched", x.Cancelled, post)
+			cc := x.Cancelled
+			if cs.CancelLate && x.Mode == "unbatched" && !x.Cancelled && !post {
+				ctx, cc = late, true // gives up after its request was written
+			}
+			t := track(ctx, x.Mode == "unbatched", cc, post)
 			submitters.Add(1)
 			go func() { defer submitters.Done(); rc.QueueRPC(t.call) }()
 		case "batch":
@@ -366,6 +391,9 @@ func runC03Case(c *fw.Ctx, id string, cs c03Case) {
 			submitters.Add(1)
 			go func() { defer submitters.Done(); rc.QueueBatch(ctx, calls) }()
 		}
+	}
+	if cs.CancelLate {
+		time.AfterFunc(5*time.Millisecond, cancelLate)
 	}
 	for _, x := range cs.Calls {
 		submit(x, false)
@@ -654,6 +682,10 @@ func runC03(c *fw.Ctx) {
 					cs.Slow = slow
 					cs.Server, cs.ServerAt = sf, at
 					run(cs, true)
+					if sf == "fatal-exc" || sf == "fatal-exc-kill" {
+						cs.CancelLate = true
+						run(cs, true)
+					}
 				}
 			}
 		}
